@@ -344,8 +344,158 @@ func runRaceCase(c raceCase) *fail {
 	return nil
 }
 
+// closeRaceCase: the final release of a File (its Close) is held inside the
+// backend while another request touches the same entry.
+type closeRaceCase struct {
+	Native  bool   `json:"native_walkgetattr"`
+	TwoConn bool   `json:"two_connections"` // the other request comes from a second connection
+	Other   string `json:"other"`           // renameat-cross | renameat-same | rename-sibling | unlinkat | walk | remove-sibling | mkdir-parent | getattr-sibling
+}
+
+var closeRaceOthers = []string{"renameat-cross", "renameat-same", "rename-sibling", "unlinkat", "walk", "remove-sibling", "mkdir-parent", "getattr-sibling"}
+
+func runCloseRaceCase(c closeRaceCase) *fail {
+	fs := memfs.New(memfs.Options{NativeWalkGetAttr: c.Native})
+	memtree.Populate(fs.Tree)
+	srv := p9.NewServer(fs)
+	s1 := peers.Start(srv)
+	s2 := s1
+	if c.TwoConn {
+		s2 = peers.Start(srv)
+	}
+	desc := fmt.Sprintf("%+v", c)
+	call := func(s *peers.Session, m *refcodec.Msg) (*refcodec.Msg, *fail) {
+		m.Tag = s.Tag()
+		r, err := s.Call(m)
+		if err != nil {
+			return nil, failf("no-reply:setup", "%s: %v (%s)", m, err, desc)
+		}
+		return r, nil
+	}
+	for _, s := range []*peers.Session{s1, s2} {
+		if _, err := s.Version(64<<10, "9P2000.L.Google.7"); err != nil {
+			return failf("harness-version", "HARNESS-ERROR %v", err)
+		}
+		if s1 == s2 {
+			break
+		}
+	}
+	// connection 1: fid 1 -> /d/f (the File whose release will be held)
+	// connection 2 (or the same): fid 10 -> /, fid 11 -> /d, fid 12 -> /d/f (a sibling fid on the entry), fid 13 -> /d/e
+	before := fs.Seq()
+	setup1 := []*refcodec.Msg{tAttach(0, nofid, ""), tWalk(0, 1, "d", "f")}
+	for _, m := range setup1 {
+		r, f := call(s1, m)
+		if f != nil {
+			return f
+		}
+		if r.Type == refcodec.Rlerror {
+			return failf("harness-setup", "HARNESS-ERROR %s => %s", m, r)
+		}
+	}
+	victim := 0
+	for _, cl := range fs.LogSince(before) {
+		if cl.New != 0 {
+			victim = cl.New
+		}
+	}
+	for _, m := range []*refcodec.Msg{tAttach(10, nofid, ""), tWalk(10, 11, "d"), tWalk(10, 12, "d", "f"), tWalk(10, 13, "d", "e")} {
+		r, f := call(s2, m)
+		if f != nil {
+			return f
+		}
+		if r.Type == refcodec.Rlerror {
+			return failf("harness-setup", "HARNESS-ERROR %s => %s", m, r)
+		}
+	}
+	gate := memfs.NewGate(func(cl *memfs.Call) bool { return cl.Op == "Close" && cl.Handle == victim })
+	fs.AddGate(gate)
+	defer gate.Release()
+	// release the last reference to the victim: its Close is now held inside the backend
+	s1.Send(refcodec.Encode(withTag(tClunk(1), 200)))
+	select {
+	case <-gate.Entered:
+	case <-time.After(20 * time.Second):
+		return failf("harness-gate", "HARNESS-ERROR the clunk never reached Close (%s)", desc)
+	}
+	var other *refcodec.Msg
+	switch c.Other {
+	case "renameat-cross":
+		other = tRenameat(11, "f", 10, "moved")
+	case "renameat-same":
+		other = tRenameat(11, "f", 11, "f2")
+	case "rename-sibling":
+		other = tRename(12, 10, "moved")
+	case "unlinkat":
+		other = tUnlinkat(11, "f")
+	case "walk":
+		other = tWalk(11, 14, "f")
+	case "remove-sibling":
+		other = tRemove(12)
+	case "mkdir-parent":
+		other = tMkdir(11, "newdir")
+	default:
+		other = tGetattr(12)
+	}
+	other.Tag = 201
+	s2.Send(refcodec.Encode(other))
+	// the other request is not ordered behind a Close (class "none"): it must complete
+	// while the Close is still held; if it is blocked we find out below
+	otherDone := false
+	if s1 == s2 {
+		// replies of the clunk (pending: the handler is inside Close) and of the other request share a stream
+		if _, err := s1.Recv(150 * time.Millisecond); err == nil {
+			otherDone = true
+		}
+	} else if _, err := s2.Recv(150 * time.Millisecond); err == nil {
+		otherDone = true
+	}
+	check := func(when string) *fail {
+		for _, a := range fs.Anomalies() {
+			if a.Kind == "use-after-close" || a.Kind == "double-close" || a.Kind == "close-during-call" {
+				return failf(a.Sig+":during-release", "%s (%s): %s %s (%s)", a.Kind, when, a.A, a.B, desc)
+			}
+		}
+		return nil
+	}
+	if f := check("while the Close was held"); f != nil {
+		return f
+	}
+	gate.Release()
+	// everything must complete now
+	want := 2
+	if otherDone {
+		want = 1
+	}
+	for i := 0; i < want; i++ {
+		s := s1
+		if i == 1 || (otherDone && false) {
+			s = s2
+		}
+		if s1 != s2 && i == 0 {
+			s = s1
+		}
+		if _, err := s.Recv(20 * time.Second); err != nil {
+			return failf("hang-after-release-race:"+c.Other, "after the held Close was released, %d of %d outstanding replies did not arrive (%s); inside backend: %v", want-i, want, desc, fs.Inside())
+		}
+	}
+	if !s1.Close(20*time.Second) || !s2.Close(20*time.Second) {
+		return failf("handle-did-not-return", "Handle did not return after the release race (%s)", desc)
+	}
+	if f := check("at the end"); f != nil {
+		return f
+	}
+	for _, h := range fs.Handles() {
+		if h.Closes != 1 {
+			return failf(fmt.Sprintf("closed-%d-times-at-teardown", min(h.Closes, 2)), "File h%d (%s) closed %d times after the release race (%s); log: %s", h.ID, h.Path, h.Closes, desc, logString(fs.LogSince(0)))
+		}
+	}
+	return nil
+}
+
 func init() {
 	replayRegistrars = append(replayRegistrars, func() {
+		registerReplay("C05/close-race", runCloseRaceCase)
 		registerReplay("C05/sessions", func(c seqCase) *fail { c.Life = true; return runSeqCase(c, nil) })
 		registerReplay("C05/path-sessions", func(c pathCase) *fail { c.Life = true; return runPathCase(c, nil) })
 		registerReplay("C05/cuts", func(c cutCase) *fail { return runCutCase(c, nil) })
@@ -468,6 +618,25 @@ func TestC05(t *testing.T) {
 			}
 		}
 		h.Exhaustive(fmt.Sprintf("%d held operations x %d ways of unbinding x 2 backends", len(raceOps), len(raceUnbinds)))
+		// (e) the final Close of a File held inside the backend while another
+		// request (same or other connection) touches the same entry
+		for _, other := range closeRaceOthers {
+			for _, two := range []bool{false, true} {
+				for _, native := range []bool{false, true} {
+					c := closeRaceCase{Native: native, TwoConn: two, Other: other}
+					f := runCloseRaceCase(c)
+					h.Case(evid.HashJSON(c), true, "close-race:"+other)
+					if f != nil && strings.HasPrefix(f.Sig, "harness-") {
+						t.Errorf("HARNESS-ERROR %s", f.Msg)
+						continue
+					}
+					if h.report("close-race", f, c) {
+						return
+					}
+				}
+			}
+		}
+		h.Exhaustive(fmt.Sprintf("held final Close x %d concurrent requests on the same entry x {same, other connection} x 2 backends", len(closeRaceOthers)))
 		h.Sample("clunk-race", raceCase{Native: true, Op: "read", Unbind: "clunk"})
 	}
 }
